@@ -5,7 +5,7 @@
 From Coq Require Import ZArith List Bool Lia.
 From RV Require Import Val.
 Import ListNotations.
-Open Scope Z_scope.
+Local Open Scope Z_scope.
 
 Inductive extz := NegInf | Fin (z : Z) | PosInf.
 
